@@ -131,8 +131,8 @@ fn same_element(vr: VR, a: &Value<InMemDicomObject, Vec<u8>>, b: &Value<InMemDic
                 }
                 VR::PN => {
                     // the same names; empty trailing component groups are not kept
-                    let (x, y) = (p.to_str().to_string(), q.to_str().to_string());
-                    let (x, y): (Vec<&str>, Vec<&str>) = (x.split('\\').collect(), y.split('\\').collect());
+                    let x: Vec<String> = if matches!(p, PrimitiveValue::Str(_) | PrimitiveValue::Strs(_)) { p.to_str().split('\\').map(|s| s.to_string()).collect() } else { p.to_multi_str().to_vec() };
+                    let y: Vec<String> = q.to_str().split('\\').map(|s| s.to_string()).collect();
                     if x.len() == y.len() && x.iter().zip(y.iter()).all(|(a, b)| a.trim_end_matches('=') == b.trim_end_matches('=')) { Ok(()) } else { Err(format!("PersonName:{:?} vs {:?}", x, y)) }
                 }
                 _ => {
